@@ -1,0 +1,40 @@
+//go:build verif
+// +build verif
+
+// Verification hook (build tag verif, add-only): a session of contracts that share one
+// jumpdests map the way the frames of one call tree do (NewContract with a *Contract caller),
+// so a harness can drive Contract.validJumpdest / isCode with its caching.
+package vm
+
+import (
+	"com.tuntun.rangers/node/src/common"
+	"github.com/holiman/uint256"
+)
+
+// VerifJdSession is a root frame plus child frames created from it.
+type VerifJdSession struct {
+	root      *Contract
+	contracts map[int]*Contract
+}
+
+func VerifNewJdSession() *VerifJdSession {
+	root := NewContract(AccountRef(common.Address{}), AccountRef(common.Address{}), nil, 0)
+	return &VerifJdSession{root: root, contracts: map[int]*Contract{}}
+}
+
+// Contract creates frame id as a child of the root (sharing its jumpdests map) running code
+// with the given code hash; the zero hash means hash-less init code.
+func (s *VerifJdSession) Contract(id int, code []byte, hash common.Hash) {
+	c := NewContract(s.root, AccountRef(common.Address{}), nil, 0)
+	addr := common.Address{}
+	c.SetCallCode(&addr, hash, code)
+	s.contracts[id] = c
+}
+
+// ValidJumpdest runs validJumpdest on frame id.
+func (s *VerifJdSession) ValidJumpdest(id int, dest *uint256.Int) bool {
+	return s.contracts[id].validJumpdest(dest)
+}
+
+// Shared returns the number of analyses stored in the shared map.
+func (s *VerifJdSession) Shared() int { return len(s.root.jumpdests) }
